@@ -318,6 +318,8 @@ class CWorld:
             vs[n] = sorted(str(x) for x in s.versions(n))
         out.update(parent_path=pp, children=ch, provider=pr, versions=vs)
         out["queries"] = {n: sorted(x.name for x in toc.query(n)) for n in ("verif.base",)}
+        # uuids the link index knows (reservations of failed attaches excluded)
+        out["link_uuids"] = sorted(str(u) for u, v in toc._links._toc_path.items() if v is not None)
         return out
 
     def check_index_rebuilt(self, dv, when):
@@ -987,7 +989,7 @@ class ContainerEngine:
         ms = MetaShadow()
         vgen = T.ValueGen(rng["values"], kinds=["i", "f", "s", "su", "y", "v", "a", "e"])
         dgen = T.DataGen(g, exotic=g.choice([0.0, 0.1, 0.3]), max_nodes=g.choice([6, 10, 15]), vgen=vgen, weights={"set_attr": 6, "del_attr": 2, "copy": 12, "move": 10, "del": 16})
-        w = {"data": 40, "meta_set": 22, "meta_del": 6, "meta_get": 4, "query": 5, "boundary": 7, "reopen": 3, "pack": 3, "reserved": 3, "actor": 0, "merge": 1}
+        w = {"data": 40, "meta_set": 22, "meta_del": 6, "meta_get": 4, "query": 5, "boundary": 7, "reopen": 3, "pack": 3, "reserved": 3, "actor": 0, "merge": 2}
         if prop == "C07":
             w.update(meta_get=12, query=14, meta_set=26)
         if prop == "C08":
@@ -1001,6 +1003,8 @@ class ContainerEngine:
             dgen.w.update(set_attr=16, del_attr=10)
         if prop == "C20":
             w.update(meta_set=30)
+        if prop == "C06":
+            w.update(merge=5)
         kinds = list(w)
         ops = []
         counter = [0]
@@ -1088,7 +1092,21 @@ class ContainerEngine:
                 v = g.choice(VS.QUERY_VERSIONS)
                 ops.append({"op": "query", "start": start, "schema": g.choice(VS.QUERY_NAMES), "version": list(v) if v else None, "via": g.choice(["container", "group"])})
             elif k == "merge":
-                ops.append({"op": "merge_check"})
+                if g.random() < 0.5:
+                    ops.append({"op": "merge_check"})
+                else:
+                    subs = []
+                    for _ in range(g.randint(1, 4)):
+                        c = g.random()
+                        if c < 0.4 and ms.pairs():
+                            p0, n0 = g.choice(ms.pairs())
+                            subs.append({"op": "meta_del", "path": p0, "schema": n0})
+                        elif c < 0.6:
+                            n0, v0 = g.choice(VS.ATTACHABLE)
+                            subs.append({"op": "meta_set", "path": node(0.95), "schema": n0, "version": list(v0), "idx": 1})
+                        else:
+                            subs.append(dgen.gen(sh.clone()))
+                    ops.append({"op": "ro_window", "ops": subs})
             elif k == "boundary":
                 ops.append({"op": "boundary"})
             elif k == "reopen":
@@ -2010,6 +2028,49 @@ class ActorGen:
         return {"op": "attempt", "actor": actor, "h": g.randrange(1000), "kind": kind, "arg": g.randrange(50)}
 
 
+def op_ro_window(w, op):
+    """The IH5 drivers are put into the state between commit_patch and create_patch, in which
+    writes are refused; every mutation issued then must be refused without any effect;
+    afterwards a new patch is created and the long-lived containers keep their in-memory
+    index. (The plain HDF5 driver has no such state and sits the window out.)"""
+    ih5 = [dv for dv in w.drv if dv.kind != "h5"]
+    for dv in ih5:
+        dv.raw.commit_patch()
+    w.count("readonly_window")
+    try:
+        before = [V.dump_tree(dv.raw)[0] for dv in ih5]
+        for sub in op.get("ops", []):
+            k = sub["op"]
+            if k == "require_group" and w.ref_kind(w.norm(T.Shadow.join(sub["base"], sub["path"]))) == "g":
+                continue  # not a write
+            w.probe("mutations_in_readonly_window")
+            for dv, b in zip(ih5, before):
+                try:
+                    if k in OWNER_DATA_OPS:
+                        T.apply_data_op(dv.mc, sub)
+                    elif k == "meta_set":
+                        dv.mc[sub["path"]].meta[sub["schema"]] = VS.instance(sub["schema"], tuple(sub["version"]), sub["idx"])
+                    elif k == "meta_del":
+                        del dv.mc[sub["path"]].meta[sub["schema"]]
+                    else:
+                        raise env.HarnessError(k)
+                    ok = True
+                except env.HarnessError:
+                    raise
+                except Exception:
+                    ok = False
+                after = V.dump_tree(dv.raw)[0]
+                if after != b:
+                    raise Violation("C06", "refused-op-had-effect", f"[{dv.kind}] {k} while the record has no writable patch changed the container: {V.diff_dumps(b, after)}", shape="readonly-window")
+                if ok:
+                    raise Violation("C09", "write-accepted-while-readonly", f"[{dv.kind}] {k} {json.dumps(sub)[:120]} succeeded although the record has no writable patch")
+    finally:
+        for dv in ih5:
+            dv.raw.create_patch()
+    w.boundaries += 1
+    return "ok"
+
+
 def op_merge_check(w, op):
     """IH5 drivers: commit, merge the record into a single container and compare the merged
     container (user view, embedded files, metadata, TOC) with the live one (C17, C09)."""
@@ -2049,4 +2110,4 @@ def op_merge_check(w, op):
     return "ok"
 
 
-EXTRA_OPS.update({"merge_check": op_merge_check, "pack": op_pack, "reserved": op_reserved, "grant": op_grant, "nav": op_nav, "attempt": op_attempt})
+EXTRA_OPS.update({"ro_window": op_ro_window, "merge_check": op_merge_check, "pack": op_pack, "reserved": op_reserved, "grant": op_grant, "nav": op_nav, "attempt": op_attempt})
